@@ -305,6 +305,11 @@ theorem tupleStep_eq {rec : P} {mC : Mode} (h : Good rec mC) (o : Opts) (xs : Li
   funext acc it
   simp [tupleStep, h.verdict_eq]
 
+theorem tupleAddStep_eq {rec : P} {mC : Mode} (h : Good rec mC) (T : Ty) (o : Opts) :
+    tupleAddStep rec T .ff o = tupleAddStep rec T mC o := by
+  funext acc it
+  simp [tupleAddStep, h.verdict_eq]
+
 theorem mapStep_eq {rec : P} {mC : Mode} (h : Good rec mC) (K : Ty) (V : Option Ty) (o : Opts) :
     mapStep rec K V .ff o = mapStep rec K V mC o := by
   funext acc kv
@@ -324,10 +329,27 @@ theorem parseArgs_sim {rec : P} {mC : Mode} (h : Good rec mC) (kind : ArgKind) (
     exact sim_andThen (runLoop_sim _ mC o _ _) (fun a => sim_pure o mC _) (fun c a hd => bad_of_dirty c _ hd)
   · unfold parseTuple
     simp only [clean0_mode, clean0_o]
-    rw [tupleStep_eq h]
+    simp only [tupleStep_eq h, tupleAddStep_eq h]
     refine sim_andThen (runLoop_sim _ mC o _ _) (fun _ => ?_) (fun c a hd => ?_)
-    · exact sim_andThen (runLoop_sim _ mC o _ _) (fun a => sim_pure o mC _) (fun c a hd => bad_of_dirty c _ hd)
-    · exact bad_andThen (runLoop_dirty _ c _ _ hd) (fun c a hd => bad_of_dirty c _ hd)
+    · refine sim_andThen (runLoop_sim _ mC o _ _) (fun a => ?_) (fun c a hd => ?_)
+      · cases ha : o.addition with
+        | typed T =>
+          simp only
+          exact sim_andThen (runLoop_sim _ mC o _ _) (fun a => sim_pure o mC _) (fun c a hd => bad_of_dirty c _ hd)
+        | none => exact sim_pure o mC _
+        | no => exact sim_pure o mC _
+        | yes => exact sim_pure o mC _
+      · cases o.addition with
+        | typed T => exact bad_andThen (runLoop_dirty _ c _ _ hd) (fun c a hd => bad_of_dirty c _ hd)
+        | none => exact bad_of_dirty c _ hd
+        | no => exact bad_of_dirty c _ hd
+        | yes => exact bad_of_dirty c _ hd
+    · refine bad_andThen (runLoop_dirty _ c _ _ hd) (fun c a hd => ?_)
+      cases o.addition with
+      | typed T => exact bad_andThen (runLoop_dirty _ c _ _ hd) (fun c a hd => bad_of_dirty c _ hd)
+      | none => exact bad_of_dirty c _ hd
+      | no => exact bad_of_dirty c _ hd
+      | yes => exact bad_of_dirty c _ hd
   · simp only [clean0_mode, clean0_o]
     rw [mapStep_eq h]
     exact sim_andThen (runLoop_sim _ mC o _ _) (fun a => sim_pure o mC _) (fun c a hd => bad_of_dirty c _ hd)
@@ -339,8 +361,13 @@ theorem parseArgs_dirty (rec : P) (kind : ArgKind) (args : List Ty) (c : Ctx) (v
   split
   · exact bad_andThen (runLoop_dirty _ c _ _ hd) (fun c a hd => bad_of_dirty c _ hd)
   · unfold parseTuple
-    exact bad_andThen (runLoop_dirty _ c _ _ hd) (fun c1 a hd1 =>
-      bad_andThen (runLoop_dirty _ c1 _ _ hd1) (fun c2 a hd2 => bad_of_dirty c2 _ hd2))
+    refine bad_andThen (runLoop_dirty _ c _ _ hd) (fun c1 a hd1 =>
+      bad_andThen (runLoop_dirty _ c1 _ _ hd1) (fun c2 a hd2 => ?_))
+    cases c.o.addition with
+    | typed T => exact bad_andThen (runLoop_dirty _ c2 _ _ hd2) (fun c a hd => bad_of_dirty c _ hd)
+    | none => exact bad_of_dirty c2 _ hd2
+    | no => exact bad_of_dirty c2 _ hd2
+    | yes => exact bad_of_dirty c2 _ hd2
   · exact bad_andThen (runLoop_dirty _ c _ _ hd) (fun c a hd => bad_of_dirty c _ hd)
   · exact bad_of_dirty c _ hd
 
@@ -455,8 +482,13 @@ theorem parseArgs_pres (rec : P) (kind : ArgKind) (args : List Ty) (c : Ctx) (v 
   split
   · exact andThen_pres (runLoop_pres _ c _ _ ⟨rfl, rfl⟩) (fun c1 a h1 => h1)
   · unfold parseTuple
-    exact andThen_pres (runLoop_pres _ c _ _ ⟨rfl, rfl⟩) (fun c1 a h1 =>
-      andThen_pres (runLoop_pres _ c1 _ _ h1) (fun c2 a h2 => h2))
+    refine andThen_pres (runLoop_pres _ c _ _ ⟨rfl, rfl⟩) (fun c1 a h1 =>
+      andThen_pres (runLoop_pres _ c1 _ _ h1) (fun c2 a h2 => ?_))
+    cases c.o.addition with
+    | typed T => exact andThen_pres (runLoop_pres _ c2 _ _ h2) (fun c3 a h3 => h3)
+    | none => exact h2
+    | no => exact h2
+    | yes => exact h2
   · exact andThen_pres (runLoop_pres _ c _ _ ⟨rfl, rfl⟩) (fun c1 a h1 => h1)
   · exact ⟨rfl, rfl⟩
 
